@@ -525,7 +525,8 @@ class Engine:
             if whole:
                 continue
             r = z3.Int(ctx.fresh_name("r"))
-            goal = z3.ForAll([r], z3.Implies(z3.And(r >= 1, *[r != a for a in allowed_refs]),
+            from .core import BIRTH
+            goal = z3.ForAll([r], z3.Implies(z3.And(BIRTH(r) < 0, *[r != a for a in allowed_refs]),
                                              z3.Select(cur, r) == z3.Select(arr0, r)))
             saved_pc = list(ctx.pc)
             ctx.oblige("frame", f"heap {key}", goal, top=True, info={"frame": key})
